@@ -6,7 +6,7 @@ CONSTANTS
   Vals <- MCVals3
   SliceArgs <- SlicesQ
   MaxSize = 4
-  MaxDepth = 6
+  MaxDepth = 5
   Dev = "none"
 VIEW MCView
 CONSTRAINT Depth
